@@ -508,7 +508,32 @@ def r11e(model: Model, rr: RuleResult):
     if pair:
         key = kwarg(pair[0], "key")
         k = norm(key) if key is not None else ""
-        if "get_glyph_id" in k and "[0]" in k:
+
+        def keyed_on_glyph(key) -> bool:
+            """the sort key is get_glyph_id(<first component of the pair>), as a lambda or as a named inner function"""
+            gid = fi.params[0]
+            if isinstance(key, ast.Lambda) and len(key.args.args) == 1:
+                pn, body, pre = key.args.args[0].arg, key.body, []
+            elif isinstance(key, ast.Name):
+                fns = [x for x in ast.walk(fi.node) if isinstance(x, ast.FunctionDef) and x.name == key.id and x is not fi.node]
+                if len(fns) != 1 or len(fns[0].args.args) != 1:
+                    return False
+                stmts = [x for x in fns[0].body if not (isinstance(x, ast.Expr) and isinstance(x.value, ast.Constant))]
+                if not stmts or not isinstance(stmts[-1], ast.Return) or stmts[-1].value is None:
+                    return False
+                pn, body, pre = fns[0].args.args[0].arg, stmts[-1].value, stmts[:-1]
+            else:
+                return False
+            if not (isinstance(body, ast.Call) and norm(body.func) == gid and len(body.args) == 1 and not body.keywords):
+                return False
+            a = body.args[0]
+            if norm(a) == f"{pn}[0]":
+                return True
+            if isinstance(a, ast.Name) and len(pre) == 1 and isinstance(pre[0], ast.Assign) and isinstance(pre[0].targets[0], (ast.Tuple, ast.List)) \
+                    and norm(pre[0].value) == pn and pre[0].targets[0].elts and norm(pre[0].targets[0].elts[0]) == a.id:
+                return True
+            return False
+        if keyed_on_glyph(key) or ("get_glyph_id" in k and "[0]" in k):
             rr.ok("glyphs and parallel entries are zipped, sorted by the glyph's id, and unzipped: one permutation for both")
         else:
             rr.bad(fi, pair[0], f"paired (glyph, entry) tuples are sorted by {k or 'their natural order'}, not by the glyph's id", construct=f"_sort_by_gid: sort key {k}")
